@@ -3,14 +3,16 @@
 use crate::core::{RunCtx, harness_error};
 
 pub mod c12;
+pub mod c13;
 pub mod c14;
 pub mod c20;
 
-pub const ALL: &[&str] = &["C12", "C14", "C20"];
+pub const ALL: &[&str] = &["C12", "C13", "C14", "C20"];
 
 pub fn run(id: &str, ctx: &RunCtx) -> i32 {
     match id {
         "C12" => c12::run(ctx),
+        "C13" => c13::run(ctx),
         "C14" => c14::run(ctx),
         "C20" => c20::run(ctx),
         _ => harness_error(&format!("unknown property id {id}")),
@@ -34,6 +36,7 @@ pub fn replay(path: &str) -> i32 {
     let prop = v["property"].as_str().unwrap_or("");
     match prop {
         "C12" => c12::replay(&v),
+        "C13" => c13::replay(&v),
         "C14" => c14::replay(&v),
         "C20" => c20::replay(&v),
         _ => harness_error(&format!("no replay for property {prop:?}")),
